@@ -6,6 +6,7 @@ AtomicError) as instances composed from the per-function theorems (call site →
 -/
 import GoZero.C10.Props
 import GoZero.C10.ProofsW
+import GoZero.C10.ProofsN
 namespace GoZero.C10
 
 /-! ### the code as it is now refines the two-step model: every theorem of `Props` applies -/
@@ -432,22 +433,12 @@ theorem ends_clean_for_every_option_list (ws : List Int) (c : Cfg) (hc : c.worke
   obtain ⟨s', h1, _, h3, h4, h5⟩ := every_run_ends_clean_now c hf (by rw [hc]; exact workersOf_ge_one ws) hr s h
   exact ⟨s', h1, h3, h4, h5⟩
 
-/-! ### the decision for nil / ErrReduceNoOutput
-
-FULL STATEMENT (not proven; runtime monitor "returned nil although a function had returned an error" /
-"returned before every function ran" in Driver.lean):
-
-    theorem finish_nil_only_if_all_ok (fns : List FnAct) (s : St) (h : ReachA (finishCfg fns) s)
-        (hr : result s = some (.err .noOutput)) : ∀ f ∈ fns, f = .ok
-
-Missing for it: an invariant that ties the executed prefix of every mapper script to `once = 0` / `failed = 0`
-and "every item was handed out" to a dispatcher that left its loop with `once = 0`.  Proven instead: what holds at
-the moment the caller decides (any configuration, any schedule). -/
+/-! ### the decision for nil / ErrReduceNoOutput -/
 
 /-- **The caller decides for ErrReduceNoOutput (nil for MapReduceVoid / Finish) only when no cancel has even begun,
 the reducer goroutine has ended, the collector is closed and empty, and every mapper goroutine has ended**
 (so every function that was started has returned, and none of them had called cancel). -/
-theorem nil_decision_partial (c : Cfg) (s s' : St) (h : ReachA c s) (hs : step c s .callerOut = some s')
+theorem nil_decision (c : Cfg) (s s' : St) (h : ReachA c s) (hs : step c s .callerOut = some s')
     (hr : s'.cpc = .defer (.err .noOutput)) :
     s.retErr = none ∧ s.once = 0 ∧ s.fin = true ∧ s.rpc = .done ∧ s.collClosed = true ∧ s.collQ = [] ∧ s.wg = 0 ∧
     ∀ i, inWg (s.mp i) = false := by
@@ -496,5 +487,34 @@ theorem nil_decision_partial (c : Cfg) (s s' : St) (h : ReachA c s) (hs : step c
 example : let c := finishCfg [.ok, .ok, .ok]
     let s := runPrioA c [.gen, .disp, .mapper 0, .mapper 1, .mapper 2, .red] 400 (init c)
     (step c s .callerOut).map (·.cpc) = some (.defer (.err .noOutput)) ∧ s.wg = 0 := by decide
+
+/-- **ErrReduceNoOutput / nil means that nothing was cancelled and nothing panicked in any mapper.**  Without a
+context and with a generator that does not panic: if a call returns ErrReduceNoOutput (nil for MapReduceVoid /
+Finish), then NO mapper script contains a cancel or a panic — every item was handed to a mapper, every mapper ran
+its whole script (`ProofsN.decision_clean`), and a captured panic would have been re-raised instead. -/
+theorem nil_only_if_scripts_clean (c : Cfg) (hf : c.fixed = true) (h1 : c.ctxCan = false) (h2 : c.ctxPre = false)
+    (h3 : c.gPanicAt = none) (s : St) (h : ReachA c s) (hr : result s = some (.err .noOutput)) :
+    ∀ i, i < c.n → hasCancel (c.mscript i) = false ∧ hasPanic (c.mscript i) = false := by
+  have I := invFin_reachA ⟨h1, h2, h3⟩ hf h
+  unfold result at hr
+  split at hr
+  next r' hc => simp at hr; subst hr; exact I.f2 hc
+  next => simp at hr
+
+/-- **Finish returns nil only if every function returned nil** (for every list of functions, every schedule). -/
+theorem finish_nil_only_if_all_ok (fns : List FnAct) (s : St) (h : ReachA (finishCfg fns) s)
+    (hr : result s = some (.err .noOutput)) : ∀ f ∈ fns, f = .ok := by
+  have hc := nil_only_if_scripts_clean (finishCfg fns) rfl rfl rfl rfl s h hr
+  intro f hf
+  obtain ⟨i, hi, rfl⟩ := List.getElem_of_mem hf
+  have := hc i hi
+  rw [finishCfg_mscript fns i hi] at this
+  cases hx : fns[i] <;> simp [hx, fnScript, hasCancel, hasPanic, isCancel] at this ⊢
+
+/-- non-vacuity: a Finish of three nil functions does return nil, one with an error does not. -/
+example : let c := finishCfg [.ok, .ok, .ok]
+    result (runPrioA c (actors c.n) 400 (init c)) = some (.err .noOutput) := by decide
+example : let c := finishCfg [.ok, .err 7, .ok]
+    result (runPrioA c (actors c.n).reverse 400 (init c)) = some (.err (.user 7)) := by decide
 
 end GoZero.C10
